@@ -814,6 +814,230 @@ Definition dns_event (dgram : bytes) : prog :=
 Definition dns_prog (exact : bool) : prog :=
   (if exact then PTake else PRead) (N.to_nat 65535) (fun b => dns_event b).
 
+
+(* ------------------------------------------------------------------ *)
+(* telnet: services/telnet/terminal.go line discipline + telnet.go dialogue *)
+(* ------------------------------------------------------------------ *)
+(* The terminal reads the connection itself (256-byte input buffer, unconsumed rest kept for
+   the next ReadLine) and handles one key at a time; for plain input (bytes below 128 other
+   than ESC and ^W) a key is one byte.  LF completes the line, CR is ignored, bytes >= 32 are
+   inserted at the cursor (up to 4096 per line), DEL/^H erase the previous character, ^U the
+   line left of the cursor, ^K the rest of the line, ^A/^E move the cursor, ^D on an empty
+   line ends the session (else deletes under the cursor), other control bytes are ignored. *)
+Definition EV_TN_CONNECT : N := 15%N.  (* [] *)
+Definition EV_TN_AUTH : N := 16%N.     (* [username; password] *)
+Definition EV_TN_CMD : N := 17%N.      (* [command] *)
+
+Inductive tn_stage := TUser | TPass (u : bytes) | TSess | TEnd.
+Record tn_st := mkTn { t_stage : tn_stage; t_line : bytes; t_pos : nat }.
+Definition TN_MAXLINE : nat := N.to_nat 4096.
+
+(* eraseNPreviousChars *)
+Definition tn_erase (n : nat) (line : bytes) (pos : nat) : bytes * nat :=
+  let n := Nat.min n pos in (firstn (pos - n) line ++ skipn pos line, pos - n).
+
+(* the line is complete: Username, then Password (-> authentication event), then commands *)
+Definition tn_complete (st : tn_st) : tn_st * list event :=
+  let l := t_line st in
+  match t_stage st with
+  | TUser => (mkTn (TPass l) [] 0, [])
+  | TPass u => (mkTn TSess [] 0, [mkEv EV_TN_AUTH [u; l]])
+  | TSess => (mkTn TSess [] 0, [mkEv EV_TN_CMD [l]])
+  | TEnd => (st, [])
+  end.
+
+Definition tn_key (st : tn_st) (b : N) : tn_st * list event :=
+  match t_stage st with
+  | TEnd => (st, [])
+  | _ =>
+      let line := t_line st in
+      let pos := t_pos st in
+      let upd (l : bytes) (p : nat) : tn_st * list event := (mkTn (t_stage st) l p, []) in
+      if beq b LF then tn_complete st
+      else if beq b 4%N then
+        match line with
+        | [] => (mkTn TEnd [] 0, [])
+        | _ => if pos <? length line then upd (firstn pos line ++ skipn (S pos) line) pos else upd line pos
+        end
+      else if beq b 127%N || beq b 8%N then let '(l, p) := tn_erase 1 line pos in upd l p
+      else if beq b 21%N then let '(l, p) := tn_erase pos line pos in upd l p
+      else if beq b 1%N then upd line 0
+      else if beq b 5%N then upd line (length line)
+      else if beq b 11%N then upd (firstn pos line) pos
+      else if (32 <=? b)%N then
+        (if length line =? TN_MAXLINE then upd line pos
+         else upd (firstn pos line ++ b :: skipn pos line) (S pos))
+      else upd line pos
+  end.
+
+(* the bytes of one Read, key by key *)
+Fixpoint tn_feed (st : tn_st) (l : bytes) : tn_st * list event :=
+  match l with
+  | [] => (st, [])
+  | b :: r => let '(st1, e1) := tn_key st b in
+              let '(st2, e2) := tn_feed st1 r in (st2, e1 ++ e2)
+  end.
+
+(* the connection: every Read returns (a piece of) one segment; the state carries over *)
+Fixpoint tn_feed_segs (st : tn_st) (c : segs) : tn_st * list event :=
+  match c with
+  | [] => (st, [])
+  | s :: r => let '(st1, e1) := tn_feed st s in
+              let '(st2, e2) := tn_feed_segs st1 r in (st2, e1 ++ e2)
+  end.
+
+Definition TN_START : tn_st := mkTn TUser [] 0.
+Definition tn_run (c : segs) : list event * N :=
+  (mkEv EV_TN_CONNECT [] :: snd (tn_feed_segs TN_START c), 0%N).
+Definition tn_expected (s : bytes) : list event * N :=
+  (mkEv EV_TN_CONNECT [] :: snd (tn_feed TN_START s), 0%N).
+
+(* ------------------------------------------------------------------ *)
+(* ldap: services/ldap/conn.go readPacket + ldap.go serve + the handler chain *)
+(* ------------------------------------------------------------------ *)
+Definition EV_LDAP : N := 18%N.        (* [message id (decimal); request type] *)
+
+Fixpoint be_N_acc (acc : N) (l : bytes) : N :=
+  match l with [] => acc | b :: r => be_N_acc (acc * 256 + b)%N r end.
+Definition be_N (l : bytes) : N := be_N_acc 0%N l.
+
+Fixpoint drop_high (l : bytes) : bytes :=
+  match l with
+  | x :: r => if (128 <=? x)%N then drop_high r else l
+  | [] => []
+  end.
+
+(* one BER value in definite form at the head of b: (identifier octet, contents, rest) *)
+Definition tlv_split (b : bytes) : option (N * bytes * bytes) :=
+  match b with
+  | [] => None
+  | id :: r0 =>
+      let r1 := if beq (N.land id 31) 31%N
+                then match drop_high r0 with _ :: t => t | [] => [] end
+                else r0 in
+      match r1 with
+      | [] => None
+      | lb :: r2 =>
+          if beq lb 128%N then None
+          else
+            let done (len : N) (r3 : bytes) :=
+              if (blen r3 <? len)%N then None
+              else Some (id, firstn (N.to_nat len) r3, skipn (N.to_nat len) r3) in
+            if (lb <? 128)%N then done lb r2
+            else let n := N.land lb 127 in
+                 if (4 <? n)%N || (blen r2 <? n)%N then None
+                 else done (be_N (firstn (N.to_nat n) r2)) (skipn (N.to_nat n) r2)
+      end
+  end.
+
+(* tlvLengthsFit: every declared length - recursively for constructed values, at most 32
+   levels - stays inside its container *)
+Fixpoint tlv_fit (fuel : nat) (depth : nat) (b : bytes) : bool :=
+  match fuel with
+  | O => false
+  | S f =>
+      if 32 <? depth then false
+      else match b with
+           | [] => true
+           | _ => match tlv_split b with
+                  | None => false
+                  | Some (id, v, rest) =>
+                      (if N.testbit id 5 then tlv_fit f (S depth) v else true) && tlv_fit f depth rest
+                  end
+           end
+  end.
+
+(* the children of a constructed value: (identifier octet, contents) *)
+Fixpoint tlv_list (fuel : nat) (b : bytes) : option (list (N * bytes)) :=
+  match fuel with
+  | O => None
+  | S f => match b with
+           | [] => Some []
+           | _ => match tlv_split b with
+                  | None => None
+                  | Some (id, v, rest) =>
+                      match tlv_list f rest with
+                      | Some l => Some ((id, v) :: l)
+                      | None => None
+                      end
+                  end
+           end
+  end.
+
+(* INTEGER contents, two's complement, as the decimal text of the event *)
+Definition int_dec (v : bytes) : bytes :=
+  match v with
+  | [] => [48%N]
+  | b :: _ => if (b <? 128)%N then N_to_dec (be_N v)
+              else 45%N :: N_to_dec (2 ^ (8 * blen v) - be_N v)%N
+  end.
+
+(* CatchAll: the tag NUMBER of the protocol op alone selects the type *)
+Definition ldap_catchall (tag : N) : bytes :=
+  if beq tag 6%N then [109;111;100;105;102;121]%N
+  else if beq tag 8%N then [97;100;100]%N
+  else if beq tag 10%N then [100;101;108;101;116;101]%N
+  else if beq tag 12%N then [109;111;100;105;102;121;45;100;110]%N
+  else if beq tag 14%N then [99;111;109;112;97;114;101]%N
+  else if beq tag 16%N then [97;98;97;110;100;111;110]%N
+  else [].
+
+(* one complete LDAPMessage (t = identifier octet of the envelope): exactly one event; an
+   UnbindRequest ends the session; an ExtendedRequest without children panics (type
+   assertion on a missing OID) *)
+Definition ldap_message (t : N) (content : bytes) (k : prog) : prog :=
+  if negb (beq t 48%N) then PDone 1
+  else match tlv_list (S (length content)) content with
+       | None => PDone 1
+       | Some [] => PDone 1                                  (* no message id *)
+       | Some ((i0, v0) :: rest) =>
+           if negb (beq i0 2%N) then PDone 1
+           else
+             let id := int_dec v0 in
+             match rest with
+             | [] => PEmit (mkEv EV_LDAP [id; []]) k          (* no handler looks at it *)
+             | (i1, v1) :: _ =>
+                 if beq i1 66%N then PEmit (mkEv EV_LDAP [id; [117;110;98;105;110;100]%N]) (PDone 0)
+                 else if beq i1 96%N then PEmit (mkEv EV_LDAP [id; [98;105;110;100]%N]) k
+                 else if beq i1 99%N then PEmit (mkEv EV_LDAP [id; [115;101;97;114;99;104]%N]) k
+                 else if beq i1 119%N then
+                   match tlv_list (S (length v1)) v1 with
+                   | Some [] => PDone 2
+                   | _ => PEmit (mkEv EV_LDAP [id; [101;120;116;101;110;100;101;100]%N]) k
+                   end
+                 else PEmit (mkEv EV_LDAP [id; ldap_catchall (if beq (N.land i1 31) 31%N then 99%N else N.land i1 31)]) k
+             end
+       end.
+
+Definition LDAP_MAX : N := 1048576%N.
+
+Fixpoint ldap_prog (fuel : nat) : prog :=
+  match fuel with
+  | O => PDone OUT_OF_FUEL
+  | S f =>
+      PTake 2 (fun hdr =>
+        match hdr with
+        | [t; l0] =>
+            if beq (N.land t 31) 31%N then PDone 1                       (* high tag number *)
+            else if beq l0 128%N then PDone 1                             (* indefinite length *)
+            else
+              let body (lenbytes : bytes) (l : N) : prog :=
+                if (LDAP_MAX <? l)%N then PDone 1
+                else PTake (N.to_nat l) (fun content =>
+                       if length content <? N.to_nat l then PDone 1     (* stream ended *)
+                       else
+                         let buf := hdr ++ lenbytes ++ content in
+                         if negb (tlv_fit (S (length buf)) 0 buf) then PDone 1
+                         else ldap_message t content (ldap_prog f)) in
+              if (l0 <? 128)%N then body [] l0
+              else let k := N.land l0 127 in
+                   if (4 <? k)%N then PDone 1
+                   else PTake (N.to_nat k) (fun lb =>
+                          if length lb <? N.to_nat k then PDone 1 else body lb (be_N lb))
+        | _ => PDone 1
+        end)
+  end.
+
 (* ------------------------------------------------------------------ *)
 (* service table                                                       *)
 (* ------------------------------------------------------------------ *)
@@ -827,6 +1051,8 @@ Definition SVC_ELASTIC : N := 7%N.
 Definition SVC_EOS : N := 8%N.
 Definition SVC_ETHEREUM : N := 9%N.
 Definition SVC_CWMP : N := 10%N.
+Definition SVC_TELNET : N := 11%N.   (* not a reader program: tn_run / tn_expected *)
+Definition SVC_LDAP : N := 12%N.
 Definition SVC_MEMCACHED_UDP : N := 20%N.
 Definition SVC_TFTP : N := 21%N.
 Definition SVC_CS : N := 22%N.
@@ -844,6 +1070,7 @@ Definition impl_prog (svc : N) (fuel : nat) : prog :=
   else if beq svc SVC_EOS then http_prog cfg_eos true fuel
   else if beq svc SVC_ETHEREUM then http_prog cfg_ethereum true fuel
   else if beq svc SVC_CWMP then http_prog cfg_cwmp true fuel
+  else if beq svc SVC_LDAP then ldap_prog fuel
   else if beq svc SVC_MEMCACHED_UDP then memcached_udp_prog false fuel
   else if beq svc SVC_TFTP then tftp_prog false
   else if beq svc SVC_CS then cs_prog false
@@ -862,6 +1089,7 @@ Definition spec_prog (svc : N) (fuel : nat) : prog :=
   else if beq svc SVC_EOS then http_prog cfg_eos false fuel
   else if beq svc SVC_ETHEREUM then http_prog cfg_ethereum false fuel
   else if beq svc SVC_CWMP then http_prog cfg_cwmp false fuel
+  else if beq svc SVC_LDAP then ldap_prog fuel
   else if beq svc SVC_MEMCACHED_UDP then memcached_udp_prog true fuel
   else if beq svc SVC_TFTP then tftp_prog true
   else if beq svc SVC_CS then cs_prog true
@@ -874,3 +1102,9 @@ Definition run_impl (svc : N) (c : segs) : list event * N :=
   seg_obs (impl_prog svc (fuel_for (concat c))) c.
 Definition expected (svc : N) (s : bytes) : list event * N :=
   str_obs (spec_prog svc (fuel_for s)) s.
+
+(* all services: telnet has its own reader (the terminal), the others are reader programs *)
+Definition run_model (svc : N) (c : segs) : list event * N :=
+  if beq svc SVC_TELNET then tn_run c else run_impl svc c.
+Definition reference (svc : N) (s : bytes) : list event * N :=
+  if beq svc SVC_TELNET then tn_expected s else expected svc s.
